@@ -10,9 +10,11 @@ pub struct PrintEvent {
     pub node: NodeId,                   // the print call
     pub func: Option<String>,           // function containing the print (None at root)
     pub chain: Vec<(NodeId, String)>,   // active calls, innermost first: (call node, name of function containing the call)
+    pub chain_in_slot: Vec<bool>,       // per chain element: the call is written inside an interpolation slot
     pub in_interp: bool,                // print or an active call sits inside an interpolation slot
     pub top_stmt: usize,                // index of the top-level statement being executed
     pub loop_iter: bool,                // inside a loop body
+    pub via_return: bool,               // the print or an active call is evaluated inside a `return` expression
 }
 
 enum Flow {
@@ -27,6 +29,7 @@ struct Frame {
     call_node: NodeId,
     n: i64,
     interp: bool,
+    in_return: bool,
 }
 
 pub struct Walker<'a> {
@@ -35,6 +38,7 @@ pub struct Walker<'a> {
     frames: Vec<Frame>,
     interp: usize,
     loops: usize,
+    root_in_return: bool,
     top_stmt: usize,
     pub events: Vec<PrintEvent>,
     off: u64,
@@ -45,7 +49,7 @@ const MAX_EVENTS: usize = 400;
 
 impl<'a> Walker<'a> {
     pub fn new(prog: &'a Prog, removed: &'a std::collections::BTreeSet<usize>) -> Walker<'a> {
-        Walker { prog, removed, frames: vec![], interp: 0, loops: 0, top_stmt: 0, events: vec![], off: 0, overflow: false }
+        Walker { prog, removed, frames: vec![], interp: 0, loops: 0, root_in_return: false, top_stmt: 0, events: vec![], off: 0, overflow: false }
     }
 
     pub fn run(&mut self) {
@@ -65,7 +69,9 @@ impl<'a> Walker<'a> {
         }
         self.off += text.len() as u64;
         let mut chain = vec![];
+        let mut chain_in_slot = vec![];
         for i in (0..self.frames.len()).rev() {
+            chain_in_slot.push(self.frames[i].interp);
             let container = if i == 0 { "<root>".to_string() } else { self.prog.fns[self.frames[i - 1].fn_id].display() };
             chain.push((self.frames[i].call_node, container));
         }
@@ -77,9 +83,11 @@ impl<'a> Walker<'a> {
             node,
             func,
             chain,
+            chain_in_slot,
             in_interp,
             top_stmt: self.top_stmt,
             loop_iter: self.loops > 0,
+            via_return: self.root_in_return || self.frames.iter().any(|f| f.in_return),
         });
     }
 
@@ -180,7 +188,17 @@ impl<'a> Walker<'a> {
             }
             StmtKind::FnDecl(_) => Flow::Normal,
             StmtKind::Return(e) => {
+                if let Some(f) = self.frames.last_mut() {
+                    f.in_return = true;
+                } else {
+                    self.root_in_return = true;
+                }
                 self.expr(e);
+                if let Some(f) = self.frames.last_mut() {
+                    f.in_return = false;
+                } else {
+                    self.root_in_return = false;
+                }
                 Flow::Return
             }
             StmtKind::IfParamPositive(body) => {
@@ -252,7 +270,7 @@ impl<'a> Walker<'a> {
                 } else {
                     0
                 };
-                self.frames.push(Frame { fn_id: fid, call_node: *node, n, interp: self.interp > 0 });
+                self.frames.push(Frame { fn_id: fid, call_node: *node, n, interp: self.interp > 0, in_return: false });
                 let saved_interp = self.interp;
                 self.interp = 0;
                 let saved_loops = self.loops;
